@@ -104,6 +104,9 @@ class Builder:
     def cont(self):
         return Enum(self.LAST, "Continue", {"0": NONE})
 
+    def ret(self):
+        return Enum(self.LAST, "Return", {"0": self.mk(self.RETURN, expressions=[], tokens=NONE)})
+
     def brk(self):
         return Enum(self.LAST, "Break", {"0": NONE})
 
@@ -344,3 +347,101 @@ def expr_text(e):
             return "function() " + "; ".join(x.strip() for x in show(_unbox(e.fields["0"]).fields["block"])) + " end"
         return e.variant
     return "?"
+
+
+# ------------------------------------------------------------------------------------------------------------------
+def build(B, items, counter):
+    """Block for a body specification: a tuple of items, an item being 'M' (a call), 'A' (`if c then continue end`), 'B' (`if d then
+    break end`), 'T' (`if e then return end`), ('L', kind, body) a loop, ('F', body) a local function, ('FE', body) a function value,
+    ('D', body) a do block, ('I', body) `if c then body end`, ('IE', body, body) if/else; the body may end with 'C' / 'K' / 'R'
+    (continue / break / return as its last statement). Condition and call names are numbered in source order."""
+    def fresh(p):
+        counter[0] += 1
+        return "%s%d" % (p, counter[0])
+    stmts, last = [], None
+    for it in items:
+        if it == "C":
+            last = B.cont()
+        elif it == "K":
+            last = B.brk()
+        elif it == "R":
+            last = B.ret()
+        elif it == "A":
+            stmts.append(B.if_(fresh("c"), B.block([], B.cont())))
+        elif it == "B":
+            stmts.append(B.if_(fresh("d"), B.block([], B.brk())))
+        elif it == "T":
+            stmts.append(B.if_(fresh("e"), B.block([], B.ret())))
+        elif it == "M":
+            stmts.append(B.mark(fresh("m")))
+        elif it[0] == "L":
+            stmts.append(B.loop(it[1], fresh("w"), build(B, it[2], counter)))
+        elif it[0] == "F":
+            stmts.append(B.local_function(fresh("f"), build(B, it[1], counter)))
+        elif it[0] == "FE":
+            stmts.append(B.local_value(fresh("g"), B.function_expr(build(B, it[1], counter))))
+        elif it[0] == "D":
+            stmts.append(B.do(build(B, it[1], counter)))
+        elif it[0] == "I":
+            stmts.append(B.if_(fresh("c"), build(B, it[1], counter)))
+        elif it[0] == "IE":
+            stmts.append(B.if_(fresh("c"), build(B, it[1], counter), build(B, it[2], counter)))
+        else:
+            raise ValueError(it)
+    return B.block(stmts, last)
+
+
+_JOB = {}
+
+
+def configure(**kw):
+    """settings of `rule_chunk` (module state, so that forked pool workers see it): ctx, fn (the rule's process function),
+    rule (its ADT), bits, no_continue"""
+    _JOB.clear()
+    _JOB.update(kw)
+
+
+def rule_chunk(specs):
+    """evaluates the configured rule on each program specification and compares the traces of the program before and after;
+    returns [(spec, None | reason, whether the rule changed the program)]"""
+    import copy
+    import itertools
+    from . import peval
+    from .peval import Ref
+    ctx, fn, rule_adt, nbits = _JOB["ctx"], _JOB["fn"], _JOB["rule"], _JOB["bits"]
+    lib = ctx.lib
+    B = Builder(lib)
+    out = []
+    for spec in specs:
+        prog = build(B, spec, [0])
+        before = copy.deepcopy(prog)
+        pe = peval.PEval(lib, ctx.an, fuel=20000000, max_depth=120)
+        cell = {"v": prog}
+        why = None
+        try:
+            pe.call_fn(fn, [peval.make(lib, rule_adt), Ref(cell, "v"), peval.UNKNOWN])
+        except peval.OutOfFuel:
+            why = "not established: no termination"
+        after = cell["v"]
+        if why is None and _JOB.get("no_continue") and has_continue(after):
+            why = "a `continue` is left in the rewritten program"
+        if why is None:
+            for bits in itertools.product((True, False), repeat=nbits):
+                try:
+                    t0 = run_skeleton(before, bits)
+                except Stuck as x:
+                    why = "reference semantics stuck on the INPUT (%s)" % x
+                    break
+                try:
+                    t1 = run_skeleton(after, bits)
+                except Stuck as x:
+                    t1 = ["stuck: %s" % x]
+                if t0 != t1:
+                    k = next((i for i, (a, b) in enumerate(zip(t0, t1)) if a != b), min(len(t0), len(t1)))
+                    why = "oracle %s: the program does [%s], the rewritten one [%s] (step %d)" % (
+                        "".join("T" if b else "F" for b in bits), " ".join(t0[max(0, k - 2):k + 2]), " ".join(t1[max(0, k - 2):k + 2]), k)
+                    break
+        if why is not None:
+            why += " | input: " + "; ".join(x.strip() for x in show(before))[:300] + " | rewritten: " + "; ".join(x.strip() for x in show(after))[:400]
+        out.append((spec, why, show(before) != show(after)))
+    return out
